@@ -43,11 +43,11 @@ theorem inv_cleanup (ok : K → R → Bool) (s : St K V R) (sel : Select) (h : I
 
 /-- **one call**: the invariant is kept, the answer (if any) is made from what was asked for, and an impossible regularisation
     raises -/
-theorem call_spec (ok : K → R → Bool) (rnone : R) (s : St K V R) (q : Req K V R) (h : Inv ok s) :
-    Inv ok (call ok rnone s q).1 ∧
-    (∀ t, (call ok rnone s q).2 = .fwd t → q.forward = true ∧ t = (q.k, q.v)) ∧
-    (∀ t, (call ok rnone s q).2 = .inv t → q.forward = false ∧ t = (q.k, q.v, q.reg) ∧ ok q.k q.reg = true) ∧
-    (q.forward = false → ok q.k q.reg = false → (call ok rnone s q).2 = .raise) := by
+theorem call_spec (ok : K → R → Bool) (noreg : R → Bool) (s : St K V R) (q : Req K V R) (h : Inv ok s) :
+    Inv ok (call ok noreg s q).1 ∧
+    (∀ t, (call ok noreg s q).2 = .fwd t → q.forward = true ∧ t = (q.k, q.v)) ∧
+    (∀ t, (call ok noreg s q).2 = .inv t → q.forward = false ∧ t = (q.k, q.v, q.reg) ∧ ok q.k q.reg = true) ∧
+    (q.forward = false → ok q.k q.reg = false → (call ok noreg s q).2 = .raise) := by
   obtain ⟨bp, vk, trf, tf, tp, tri⟩ := s
   obtain ⟨k, v, fw, reg⟩ := q
   obtain ⟨h1, h2, h3⟩ := h
@@ -56,38 +56,38 @@ theorem call_spec (ok : K → R → Bool) (rnone : R) (s : St K V R) (q : Req K 
   simp only
   grind (splits := 40)
 
-theorem inv_step (ok : K → R → Bool) (rnone : R) (s : St K V R) (op : Op K V R) (h : Inv ok s) : Inv ok (step ok rnone s op) := by
+theorem inv_step (ok : K → R → Bool) (noreg : R → Bool) (s : St K V R) (op : Op K V R) (h : Inv ok s) : Inv ok (step ok noreg s op) := by
   cases op with
-  | call q => exact (call_spec ok rnone s q h).1
+  | call q => exact (call_spec ok noreg s q h).1
   | cleanup sel => exact inv_cleanup ok s sel h
 
 /-- the invariant holds in every state a session can reach -/
-theorem inv_run (ok : K → R → Bool) (rnone : R) (s : St K V R) (ops : List (Op K V R)) (h : Inv ok s) : Inv ok (run ok rnone s ops) := by
+theorem inv_run (ok : K → R → Bool) (noreg : R → Bool) (s : St K V R) (ops : List (Op K V R)) (h : Inv ok s) : Inv ok (run ok noreg s ops) := by
   induction ops generalizing s with
   | nil => exact h
-  | cons op ops ih => exact ih _ (inv_step ok rnone s op h)
+  | cons op ops ih => exact ih _ (inv_step ok noreg s op h)
 
 /-- **cache transparency along any history**: after any sequence of calls and cleanups since the start of the process, a call
     that returns matrices returns those of the basis, mask and regularisation it names -/
-theorem call_returns_requested (ok : K → R → Bool) (rnone : R) (v0 : V) (ops : List (Op K V R)) (q : Req K V R) :
-    let out := (call ok rnone (run ok rnone (St.init v0) ops) q).2
+theorem call_returns_requested (ok : K → R → Bool) (noreg : R → Bool) (v0 : V) (ops : List (Op K V R)) (q : Req K V R) :
+    let out := (call ok noreg (run ok noreg (St.init v0) ops) q).2
     (∀ t, out = .fwd t → q.forward = true ∧ t = (q.k, q.v)) ∧
     (∀ t, out = .inv t → q.forward = false ∧ t = (q.k, q.v, q.reg) ∧ ok q.k q.reg = true) :=
-  let h := call_spec ok rnone _ q (inv_run ok rnone _ ops (inv_init ok v0))
+  let h := call_spec ok noreg _ q (inv_run ok noreg _ ops (inv_init ok v0))
   ⟨h.2.1, h.2.2.1⟩
 
 /-- **an impossible regularisation raises whatever came before** (in particular right after the same request has raised, and
     after requests whose matrices are still in memory) -/
-theorem invalid_reg_raises (ok : K → R → Bool) (rnone : R) (v0 : V) (ops : List (Op K V R)) (q : Req K V R)
+theorem invalid_reg_raises (ok : K → R → Bool) (noreg : R → Bool) (v0 : V) (ops : List (Op K V R)) (q : Req K V R)
     (hf : q.forward = false) (hbad : ok q.k q.reg = false) :
-    (call ok rnone (run ok rnone (St.init v0) ops) q).2 = .raise :=
-  (call_spec ok rnone _ q (inv_run ok rnone _ ops (inv_init ok v0))).2.2.2 hf hbad
+    (call ok noreg (run ok noreg (St.init v0) ops) q).2 = .raise :=
+  (call_spec ok noreg _ q (inv_run ok noreg _ ops (inv_init ok v0))).2.2.2 hf hbad
 
 /-- a forward request is never answered with inverse matrices, nor an inverse one with forward matrices -/
-theorem direction_respected (ok : K → R → Bool) (rnone : R) (v0 : V) (ops : List (Op K V R)) (q : Req K V R) :
-    (q.forward = true → ∀ t, (call ok rnone (run ok rnone (St.init v0) ops) q).2 ≠ .inv t) ∧
-    (q.forward = false → ∀ t, (call ok rnone (run ok rnone (St.init v0) ops) q).2 ≠ .fwd t) := by
-  have h := call_returns_requested ok rnone v0 ops q
+theorem direction_respected (ok : K → R → Bool) (noreg : R → Bool) (v0 : V) (ops : List (Op K V R)) (q : Req K V R) :
+    (q.forward = true → ∀ t, (call ok noreg (run ok noreg (St.init v0) ops) q).2 ≠ .inv t) ∧
+    (q.forward = false → ∀ t, (call ok noreg (run ok noreg (St.init v0) ops) q).2 ≠ .fwd t) := by
+  have h := call_returns_requested ok noreg v0 ops q
   constructor
   · intro hf t ht
     have := (h.2 t ht).1
@@ -102,17 +102,17 @@ def okEx : Nat → Nat → Bool := fun _ r => r != 2
 
 /-- a valid request, then the impossible one twice: both raise, and the valid one is answered from the cache afterwards -/
 example :
-    let s1 := (call okEx 0 (St.init 0 : St Nat Nat Nat) ⟨7, 0, false, 1⟩).1
-    let r2 := call okEx 0 s1 ⟨7, 0, false, 2⟩
-    let r3 := call okEx 0 r2.1 ⟨7, 0, false, 2⟩
-    let r4 := call okEx 0 r3.1 ⟨7, 0, false, 1⟩
+    let s1 := (call okEx (fun r => r == 0) (St.init 0 : St Nat Nat Nat) ⟨7, 0, false, 1⟩).1
+    let r2 := call okEx (fun r => r == 0) s1 ⟨7, 0, false, 2⟩
+    let r3 := call okEx (fun r => r == 0) r2.1 ⟨7, 0, false, 2⟩
+    let r4 := call okEx (fun r => r == 0) r3.1 ⟨7, 0, false, 1⟩
     (match r2.2 with | .raise => true | _ => false) = true ∧ (match r3.2 with | .raise => true | _ => false) = true ∧
     (match r4.2 with | .inv t => t == (7, 0, 1) | _ => false) = true := by decide
 
 /-- a mask change invalidates the forward matrices: the next forward call returns matrices for the new mask -/
 example :
-    let s1 := (call okEx 0 (St.init 0 : St Nat Nat Nat) ⟨7, 0, true, 0⟩).1
-    (match (call okEx 0 s1 ⟨7, 5, true, 0⟩).2 with | .fwd t => t == (7, 5) | _ => false) = true := by decide
+    let s1 := (call okEx (fun r => r == 0) (St.init 0 : St Nat Nat Nat) ⟨7, 0, true, 0⟩).1
+    (match (call okEx (fun r => r == 0) s1 ⟨7, 5, true, 0⟩).2 with | .fwd t => t == (7, 5) | _ => false) = true := by decide
 end
 
 end PyAbel.C07R
